@@ -1822,7 +1822,7 @@ Section RT.
         { unfold any_text. rewrite Hs1.
           destruct (msg_get 3 m) as [v3|] eqn:E3.
           - destruct (Hshape 3 v3 E3) as [(Hn & _)|[(Hn & _)|(_ & s & ->)]]; try discriminate.
-            injection Hdata as <-. split; [|reflexivity]. apply Hraw. reflexivity.
+            apply stored_json_ok in Hdata as [-> _]. split; [|reflexivity]. apply Hraw. reflexivity.
           - apply obind_ok in Hdata as (pbytes & Hpb & Hd). rewrite (field_bytes_s _ _ _ Hpb).
             split; [eapply Hinner; exact Hd|exact Hd]. }
         destruct Hc as [(Jd & Hwd & ->) Htxt].
